@@ -1,0 +1,32 @@
+//go:build verif
+
+package backoff
+
+// Contracts checked by /verif (contract-based deductive verification).
+// This file is comment-only; it is compiled only with -tags=verif.
+
+//@ import math "math"
+
+// Exponential.Backoff, verified over IEEE-754 binary64 and 64-bit two's
+// complement integers (arith bv). math.Pow does not occur: the loop multiplies.
+// Configurations: non-negative delays, finite non-negative multiplier, finite
+// jitter (any size, including > 1).
+
+//@ spec func cfgOK(bc Exponential) bool {
+//@   return bc.Config.BaseDelay >= 0 && bc.Config.MaxDelay >= 0 &&
+//@     !math.IsNaN(bc.Config.Multiplier) && !math.IsInf(bc.Config.Multiplier, 0) && bc.Config.Multiplier >= 0 &&
+//@     !math.IsNaN(bc.Config.Jitter) && !math.IsInf(bc.Config.Jitter, 0)
+//@ }
+
+//@ func (Exponential).Backoff
+//@   prop C20
+//@   arith bv
+//@   nopanic
+//@   requires cfgOK(bc)
+//@   loop 1 invariant !math.IsNaN(backoff) && backoff >= 0 && max == float64(bc.Config.MaxDelay)
+//@   loop 1 invariant implies(bc.Config.Multiplier >= 1, backoff >= float64(bc.Config.BaseDelay))
+//@   loop 1 decreases retries
+//@   assert at call Float64#1 !math.IsNaN(backoff) && backoff >= 0 && backoff <= float64(bc.Config.MaxDelay)
+//@   assert at call Float64#1 implies(bc.Config.Multiplier >= 1 && bc.Config.BaseDelay <= bc.Config.MaxDelay, backoff >= float64(bc.Config.BaseDelay))
+//@   ensures result >= 0
+//@   ensures implies(retries == 0, result == bc.Config.BaseDelay)
